@@ -4,6 +4,7 @@ import (
 	"fmt"
 	"os"
 	"path/filepath"
+	"sort"
 	"strconv"
 	"strings"
 
@@ -235,6 +236,24 @@ func idsAnswer(line, tmp string) (string, bool) {
 		}
 		return res, true
 	}
+	if len(f) == 7 && f[0] == "frac.index" {
+		mids, rids := parseU64s(f[1]), parseU64s(f[2])
+		all, post := parseU32s(f[3]), parseU32s(f[4])
+		mn, _ := strconv.ParseUint(f[5], 10, 32)
+		mx, _ := strconv.ParseUint(f[6], 10, 32)
+		res := "panic"
+		func() {
+			defer func() { recover() }()
+			ids, index := frac.VerifSortSeqIDs(mids, rids, all)
+			asc := frac.VerifInverseLIDs(post, all, len(mids), uint32(mn), uint32(mx))
+			desc := make([]uint32, len(asc))
+			for i, v := range asc {
+				desc[len(asc)-1-i] = v
+			}
+			res = fmt.Sprintf("ok ids=%s index=%s asc=%s desc=%s", fmtIDs(ids), fmtU32s(index), fmtU32s(asc), fmtU32s(desc))
+		}()
+		return res, true
+	}
 	return "", false
 }
 
@@ -353,4 +372,54 @@ func runIDsChannels(o vh.Opts, rng *vh.RNG, rep *vh.Report, tmp string) {
 		}
 	}
 	rep.AddChannel(q, o.Driver)
+
+	fi := vh.NewChannel("frac.index", "sortSeqIDs (sealed ID order + old->new LID index) and newInverser + inverseLIDs (the active fraction's posting node content) vs sealedIDs / buildIndex / activeNode: random fractions of 1..40 documents inserted out of ID order, a posting list that is a sub-list of the all-documents list (plus foreign LIDs that are not in the inverser), random LID windows; non-trivial = posting list with >= 2 documents")
+	for i := 0; i < o.Pick(300, 4000); i++ {
+		n := rng.Range(1, 40)
+		mids := []uint64{^uint64(0)}
+		rids := []uint64{^uint64(0)}
+		for k := 1; k <= n; k++ {
+			mids = append(mids, uint64(1000+rng.Intn(n/2+1)))
+			rids = append(rids, rng.U64()>>uint(rng.Range(1, 60)))
+		}
+		extra := rng.Intn(3) // LIDs appended after the search started: not in the all-documents list
+		for k := 0; k < extra; k++ {
+			mids = append(mids, uint64(2000+k))
+			rids = append(rids, uint64(k))
+		}
+		all := make([]uint32, n)
+		for k := range all {
+			all[k] = uint32(k + 1)
+		}
+		sort.Slice(all, func(x, y int) bool { // descending (mid, rid, lid) like queueIDs.Less
+			a, b := all[x], all[y]
+			if mids[a] != mids[b] {
+				return mids[a] > mids[b]
+			}
+			if rids[a] != rids[b] {
+				return rids[a] > rids[b]
+			}
+			return a > b
+		})
+		var post []uint32
+		for _, l := range all {
+			if rng.Chance(1, 2) {
+				post = append(post, l)
+			}
+		}
+		for k := 0; k < extra; k++ {
+			if rng.Bool() {
+				post = append(post, uint32(n+1+k))
+			}
+		}
+		a := rng.Range(0, n+1)
+		b := rng.Range(a, n+2)
+		if rng.Chance(1, 10) {
+			a, b = b, a
+		}
+		line := fmt.Sprintf("frac.index %s %s %s %s %d %d", vh.JoinInts(mids), vh.JoinInts(rids), fmtU32s(all), fmtU32s(post), a, b)
+		impl, _ := idsAnswer(line, dir)
+		fi.Add(line, impl, len(post) >= 2, fmt.Sprintf("extra=%d", extra))
+	}
+	rep.AddChannel(fi, o.Driver)
 }
